@@ -175,5 +175,20 @@ theorem clamped_subtraction_is_the_source (d1s d2s : DecCoins) :
 theorem restart_keeps_the_ledger (w w' : World) (hok : RestartOK w) (hl : L0 w) (h : reimport w = (.ok (), w')) : L0 w' :=
   restart_keeps_ledger w w' hok hl h
 
+
+/-- a state in which the asset-side sum holds: asset 1 has 5 validator shares, all of them on validator 0, and no delegation
+    is left on that validator (the residue of exits at a share price ≠ 1) -/
+def wResidue : World :=
+  { (default : World) with
+    assets := [(1, { (default : Asset) with denom := 1, totalTokens := 7, totalValShares := 5 })],
+    vals := [(0, { hist := [], totalDelShares := [], valShares := [(1, 5)] })] }
+
+/-- REFUTES the asset-side sum (known finding D21 `validator_removed_residual_shares`): x/staking's removal of the validator
+    deletes its alliance record; the asset's share total keeps the 5 shares no validator holds any more -/
+theorem validator_removal_strands_residual_shares :
+    (wResidue.vals.map (fun p => DecCoins.sumOf p.2.valShares 1)).sum = 5 ∧
+    ((afterValidatorRemoved 0 wResidue).2.vals.map (fun p => DecCoins.sumOf p.2.valShares 1)).sum = 0 ∧
+    (getAsset (afterValidatorRemoved 0 wResidue).2 1).map (·.totalValShares) = some 5 := by decide
+
 end C03
 end Alliance
